@@ -95,6 +95,31 @@ def run_status(rng):
             outs.append(violated('c18:differ-output', '`delta a b`: output is not the complete rendering of the differ\'s output', len(ref.out), len(r.out), run=r))
         else:
             outs.append(held(sig=('status', 'differ', rc, tuple(sorted(o))), counters={'status_runs': 1}, sets={'sub': ['status:differ-%d' % rc]}))
+    # one side read through a file descriptor, as with `delta <(sort a) b` (the shell passes /dev/fd/N): the real git and diff
+    # of this machine do the comparison (git < 2.42 would compare the link, not what it points to, so delta must choose
+    # diff for it).  0 and no output for identical contents, 1 and the changed lines otherwise - whichever side is the fd
+    if rng.random() < 0.5:
+        ta, tb = 'same line\nremoved %d\nlast\n' % rng.randrange(10 ** 6), 'same line\nadded %d\nlast\n' % rng.randrange(10 ** 6)
+        fb2 = runner.write_file('c18_fd_b.txt', tb)
+        fdpath = rng.choice(['/dev/fd/0', '/proc/self/fd/0'])
+        side = rng.choice(['left', 'right'])
+        for content, want_rc in ((tb, 0), (ta, 1)):
+            pos = [fdpath, fb2] if side == 'left' else [fb2, fdpath]
+            r = run_plain(['--paging', 'never', '--no-gitconfig'] + pos, content.encode(), path_prefix=None)
+            c = crashmod.classify(r)
+            vis = '\n'.join(term.visible_lines(r.out.decode('utf-8', 'replace')))
+            if c is not None:
+                outs.append(violated('c18:crash:' + c['signature'], c['detail'], run=r))
+            elif r.rc != want_rc:
+                outs.append(violated('c18:fd-path-status', '`delta %s`: contents %s, delta exited %s' % (' '.join(pos), 'identical' if want_rc == 0 else 'different', r.rc),
+                                     want_rc, r.rc, run=r))
+            elif want_rc == 0 and r.out.strip():
+                outs.append(violated('c18:fd-path-output', '`delta %s` with identical contents rendered a difference' % ' '.join(pos), b'', r.out[:200], run=r))
+            elif want_rc == 1 and not (ta.split('\n')[1] in vis and tb.split('\n')[1] in vis):
+                outs.append(violated('c18:fd-path-output', '`delta %s`: the changed lines are not in the rendered output' % ' '.join(pos),
+                                     [ta.split('\n')[1], tb.split('\n')[1]], vis[:300], run=r))
+            else:
+                outs.append(held(sig=('status', 'fd-path', fdpath, side, want_rc), counters={'status_runs': 1}, sets={'sub': ['status:fd-path-%s-%d' % (side, want_rc)]}))
     # the same with an active pager: the status is still the differ's / the command's, and the pager receives the rendering
     for _ in range(2):
         rc = rng.choice([0, 1, 2, 3, 129])
